@@ -413,14 +413,17 @@ class World:
                 # (+0.3: the receive thread releases the next request before the caller of the answered one has woken up)
                 allow = max([rec_['t_call']] + blockers) + 0.5
                 if t_sent > allow:
-                    # mechanism: a request issued at the very moment its key is being freed can slip between the transmit
-                    # thread's "key in use?" test and its pending.put() - nobody requeues it until the next matched message
-                    # (lost wake-up, at worst the next heartbeat).  A request that had been waiting in 'pending' for a while
-                    # when its key became free is another matter.
+                    # mechanism: a request handed to the transmit thread (by its caller, or by the requeue after a reply) at the
+                    # very moment its key is being freed can slip between the transmit thread's "key in use?" test and its
+                    # pending.put() - nobody requeues it until the next matched message (lost wake-up, at worst the next
+                    # heartbeat).  A request that had been resting in 'pending' when its key became free is another matter.
                     raw = [v['t_ret'] for k2, v in results.items() if k2 != key and v['kind'] == rec_['kind'] and 't_ret' in v and
                            v['t_call'] < t_sent and v['t_ret'] <= t_sent + 0.3]
                     t_free = max(raw, default=rec_['t_call'])       # the caller of the last request with this key returned
-                    how = 'issued-while-its-key-was-being-freed' if abs(rec_['t_call'] - t_free) < 0.05 else 'after-waiting-in-the-queue'
+                    # when was this request last handed to the transmit thread before that?  by its caller, or by the requeue that
+                    # follows every earlier reply
+                    t_handed = max([rec_['t_call']] + [x for x in raw if x < t_free - 1e-9])
+                    how = 'issued-while-its-key-was-being-freed' if t_free - t_handed < 0.05 else 'after-waiting-in-the-queue'
                     r.violation(f'C11/request-held-back-although-its-key-was-free/{how}',
                                 f'caller {key} ({rec_["kind"]}) called at {rec_["t_call"] - self.D.T0:.2f}, the last request with the same key ended at '
                                 f'{max(blockers, default=rec_["t_call"]) - self.D.T0:.2f}, but its request went on the wire only at {t_sent - self.D.T0:.2f}', case)
